@@ -20,6 +20,12 @@ def plan(tier):
             for t0 in range(n):
                 qs.append(ResQuery('live_%s_first%d' % ('_'.join(progs), t0), progs, cbmc_defs=['VF_LIVENESS=1'], K=K, prefix=[t0], timeout=1500 if tier == 'quick' else 3000,
                                    desc={'threads': list(progs), 'first_scheduled_thread': t0, 'symbolic': 'the remaining %d schedule choices' % (K - 1), 'spurious_wakeups': 'off'}))
+    # (c) a request arriving between the admission of a queued batch and the resumption of its threads: one thread issues a second request
+    for progs, K in ([(('WR', 'R', 'R'), 30)] if tier == 'quick' else [(('WR', 'R', 'R'), 30), (('WW', 'R', 'R'), 30), (('RW', 'R', 'W'), 30)]):
+        for t0 in range(len(progs)):
+            qs.append(ResQuery('late_arrival_%s_first%d' % ('_'.join(progs), t0), progs, cbmc_defs=['VF_LIVENESS=1'], K=K, prefix=[t0], timeout=2400 if tier == 'quick' else 3600,
+                               desc={'threads': list(progs), 'first_scheduled_thread': t0, 'symbolic': 'the remaining %d schedule choices' % (K - 1), 'spurious_wakeups': 'off',
+                                     'note': 'covers requests that arrive while admitted waiters have not resumed yet'}))
     return qs
 
 
